@@ -21,6 +21,7 @@ import (
 	"verif/harness/ev"
 	"verif/harness/probe"
 	"verif/harness/sched"
+	"verif/harness/sessprog"
 	"verif/harness/world"
 )
 
@@ -337,7 +338,11 @@ func TestC08(t *testing.T) {
 	r.Assume("gates are only placed where the parked goroutine holds no lock another goroutine of the scenario needs (otherwise synctest.Wait would never see quiescence)")
 	maxPer := ev.Pick(250, 20000)
 	exhaustive := true
+	onlyShape := os.Getenv("VERIF_C08_SHAPE") // debugging aid: run only the stress shapes whose name contains this
 	for _, c := range cells() {
+		if onlyShape != "" {
+			break
+		}
 		d := &sched.DFS{}
 		n := 0
 		for {
@@ -385,6 +390,8 @@ func stressC08(t *testing.T, r *ev.Run) {
 		parts   int
 		workers int
 		ops     int
+		encPct  int // percentage of encrypts (default 33)
+		hot     bool // aggressive yields at log points (long sleeps, often)
 	}
 	mk := func(pol string, cap int, shared bool) world.Cfg {
 		c := world.Default(time.Hour, time.Hour, time.Minute)
@@ -394,22 +401,29 @@ func stressC08(t *testing.T, r *ev.Run) {
 	}
 	opsN := ev.Pick(1500, 40000)
 	shapes := []shape{
-		{"shared-lru-1", mk("lru", 1, true), 8, 16, opsN},
-		{"shared-slru-2", mk("slru", 2, true), 8, 16, opsN},
-		{"shared-tinylfu-2", mk("tinylfu", 2, true), 8, 16, opsN},
-		{"shared-lfu-100-async", mk("lfu", 100, true), 150, 32, opsN},
-		{"per-session-lru-1", mk("lru", 1, false), 8, 16, opsN},
+		{"shared-lru-1", mk("lru", 1, true), 8, 16, opsN, 0, false},
+		{"shared-slru-2", mk("slru", 2, true), 8, 16, opsN, 0, false},
+		{"shared-tinylfu-2", mk("tinylfu", 2, true), 8, 16, opsN, 0, false},
+		{"shared-lfu-100-async", mk("lfu", 100, true), 150, 32, opsN, 0, false},
+		{"per-session-lru-1", mk("lru", 1, false), 8, 16, opsN, 0, false},
 	}
 	sc := world.Default(time.Hour, time.Hour, time.Minute)
 	sc.SessCache, sc.SessCap, sc.SessDur, sc.SharedIK, sc.IKPolicy, sc.IKCap = true, 2, 2*time.Millisecond, true, "lru", 2
-	shapes = append(shapes, shape{"session-cache-2+shared-lru-2", sc, 6, 16, opsN})
+	shapes = append(shapes, shape{"session-cache-2+shared-lru-2", sc, 6, 16, opsN, 0, false})
 	// cached sessions with their own key caches: a session torn down while still held destroys keys under its users
 	sc2 := world.Default(time.Hour, time.Hour, time.Minute)
 	sc2.SessCache, sc2.SessCap, sc2.SessDur = true, 2, 2*time.Millisecond
-	shapes = append(shapes, shape{"session-cache-2+per-session-keys", sc2, 6, 16, opsN})
+	shapes = append(shapes, shape{"session-cache-2+per-session-keys", sc2, 6, 16, opsN, 0, false})
+	// mostly cache hits on the encrypt path, with long pauses at the SDK's log points: the window between finding the
+	// latest key and taking a reference on it
+	shapes = append(shapes, shape{"shared-lru-2/encrypt-heavy/hot-yields", mk("lru", 2, true), 3, 16, opsN, 85, true})
+	shapes = append(shapes, shape{"shared-slru-1/encrypt-heavy/hot-yields", mk("slru", 1, true), 2, 16, opsN, 85, true})
 	reps := ev.Pick(1, 5)
 	for rep := 0; rep < reps; rep++ {
 		for si, sh := range shapes {
+			if onlyShape := os.Getenv("VERIF_C08_SHAPE"); onlyShape != "" && !strings.Contains(sh.name, onlyShape) {
+				continue
+			}
 			journal(fmt.Sprintf("C08 stress %s rep %d", sh.name, rep))
 			w := world.New([]string{"memguard", "protectedmemory"}[(si+rep)%2])
 			w.MS.Drop, w.AEAD.Drop = true, true
@@ -451,6 +465,22 @@ func stressC08(t *testing.T, r *ev.Run) {
 					time.Sleep(time.Duration(1+n%50) * time.Microsecond)
 				}
 			})
+			// the SDK's own debug-log calls are further yield points: they sit between many steps that no hook marks
+			// (a yield inside a lock adds nothing, one between a lookup and taking a reference widens that window)
+			var logYields atomic.Int64
+			sessprog.Tap.SetKeep(false)
+			sessprog.Tap.SetScan(func(string) {
+				n := logYields.Add(1)
+				x := (uint64(n)*0xD1B54A32D192ED03 + uint64(seed)) >> 59
+				switch {
+				case sh.hot && x < 6:
+					time.Sleep(time.Duration(40+n%160) * time.Microsecond)
+				case x < 3:
+					runtime.Gosched()
+				case x == 3:
+					time.Sleep(time.Duration(5+n%40) * time.Microsecond)
+				}
+			})
 			f := w.Factory(sh.cfg, "svc", "prod")
 			var wg sync.WaitGroup
 			var failures atomic.Int64
@@ -471,7 +501,11 @@ func stressC08(t *testing.T, r *ev.Run) {
 						}
 						nops := 1 + rng.Intn(3)
 						for k := 0; k < nops; k++ {
-							if rng.Intn(3) == 0 {
+							encPct := sh.encPct
+							if encPct == 0 {
+								encPct = 33
+							}
+							if rng.Intn(100) < encPct {
 								if _, err := s.Encrypt(ctx, []byte("x")); err != nil {
 									failures.Add(1)
 									firstErr.CompareAndSwap(nil, "encrypt "+rc.part+": "+err.Error())
@@ -490,6 +524,8 @@ func stressC08(t *testing.T, r *ev.Run) {
 			}
 			wg.Wait()
 			probe.SetHookSink(nil)
+			sessprog.Tap.SetScan(nil)
+			r.Count("stress_log_yield_points", logYields.Load())
 			f.Close()
 			// asynchronous teardown: bounded wait for quiescence, inconclusive if it never comes
 			deadline := time.Now().Add(20 * time.Second)
